@@ -153,6 +153,10 @@ func (c *Class) Evaluation(
 	ctx.SetFrame(nextFrame)
 	ctx.SetClass(class)
 
+	// a class or module body starts public, whatever section encloses it
+	ctx.EndPrivate()
+	ctx.EndProtected()
+
 	//extends
 	nextT, err = p.Read()
 	if err != nil {
